@@ -84,6 +84,11 @@ def worker_env(hashseed):
     env["OPENBLAS_NUM_THREADS"] = "1"
     env["MKL_NUM_THREADS"] = "1"
     env.pop("PYTHONPATH", None)
+    # development override only (used by tools/try_mutant.sh to test a seeded change in a scratch worktree while
+    # /repo is in use by a background run); the registered commands never set it and import from /repo
+    alt = os.environ.get("VERIF_REPO")
+    if alt:
+        env["PYTHONPATH"] = alt
     return env
 
 
